@@ -113,6 +113,14 @@ def classify_cut(base, k):
     return 'inside:unknown'
 
 
+def line_index(base, k):
+    """(index of the line that contains offset k or starts at k, offset inside it)"""
+    for i, d in enumerate(base.lines):
+        if d['start'] <= k < d['end']:
+            return i, k - d['start']
+    return len(base.lines), 0
+
+
 def cut_points(base, rng, tier, n_random):
     app = base.appended
     n = len(app)
@@ -218,7 +226,7 @@ def judge_cut(acc, base, obs, answers):
     """model comparison and oracle for one cut; answers: the model's answer per session"""
     names = base.params['benchmarks']
     k, cut_in = obs['k'], obs['cut_in']
-    inp = {'params': base.params, 'cut': k, 'cut_in': cut_in,
+    inp = {'params': base.params, 'cut': k, 'cut_in': cut_in, 'line': list(line_index(base, k)),
            'tail_before_cut': base.appended[max(0, k - 60):k], 'head_after_cut': base.appended[k:k + 30]}
     acc.count('cut:' + cut_in.split(':field')[0])
     starts = obs['starts']
@@ -411,6 +419,16 @@ def run(ck):
 def replay(ck, data):
     inp = data['input']
     params = inp['params']
-    k = inp['cut']
-    acc, _base = process(params, os.path.join(ck.scratch, 'replay'), lambda base: [min(k, len(base.appended))], ck.model)
+
+    def cuts(base):
+        # the cut is named structurally (class, line, offset): path lengths differ between runs
+        k = min(inp['cut'], len(base.appended))
+        if 'line' in inp and (classify_cut(base, k) != inp['cut_in'] or list(line_index(base, k)) != inp['line']):
+            line, off = inp['line']
+            cand = [j for j in range(len(base.appended) + 1)
+                    if classify_cut(base, j) == inp['cut_in'] and line_index(base, j)[0] == line]
+            if cand:
+                k = min(cand, key=lambda j: abs(line_index(base, j)[1] - off))
+        return [k]
+    acc, _base = process(params, os.path.join(ck.scratch, 'replay'), cuts, ck.model)
     acc.merge_into(ck)
